@@ -428,7 +428,7 @@ let () =
               (match found with
                | Some pp ->
                  (* what unwinding drops must have been dropped; nothing dropped is still held *)
-                 chk "panic_drops" (List.for_all (fun t -> List.exists (fun d -> Z.equal (z_of_n d) (z_of_n t)) post.dropped) pp.pdrop)
+                 chk "panic_drops" (List.for_all (fun t -> List.exists (fun d -> Z.equal (z_of_n d) (z_of_n t)) post.dropped) (observable_drops pp.pdrop))
                | None ->
                  let pts = pts_for { o_tomb = N0; o_reuse = false; o_alloc = true } in
                  Buffer.add_string detail (Printf.sprintf "  model: %d panic points for this operation; those of kind %s:\n" (List.length pts) kname);
